@@ -2,6 +2,8 @@
 //! Reads one JSON request per line from the file given as argv[1] (or stdin), writes one
 //! JSON response per line to stdout.  Every request runs inside catch_unwind.
 mod cmp;
+mod oracle;
+mod render;
 mod stack;
 mod val;
 
@@ -13,6 +15,8 @@ fn dispatch(req: &J) -> J {
     match req["kind"].as_str().unwrap_or("") {
         "stack" => stack::run(req),
         "cmp" => cmp::run(req),
+        "oracle" => oracle::run(req),
+        "render" => render::run(req),
         k => json!({"error": format!("unknown kind {}", k)}),
     }
 }
